@@ -47,7 +47,8 @@ COMPONENTS_STUB = ["none"]
 EXPECTED_PROBES = ["cls_Dataset", "cls_Dataset2d", "cls_Dataset3d", "cls_Dataset4d", "cls_Dataset4dstem",
                    "ndim_changed_by_getitem", "getitem_list", "getitem_ellipsis", "getitem_negative_step",
                    "getitem_partial", "length1_axis", "rejected_setter", "rejected_shape_arg",
-                   "inplace_vs_copy_compared", "pairs_steered", "complex_dtype", "int_dtype"]
+                   "inplace_vs_copy_compared", "pairs_steered", "complex_dtype", "int_dtype",
+                   "axis_ge_16", "layout_F", "layout_strided", "layout_readonly", "layout_negstride"]
 
 _D = {}
 _registry0 = None
@@ -83,8 +84,14 @@ def _gen_create(r):
     ndim = {"Dataset": r.pick([1, 2, 3, 4, 5]), "Dataset2d": 2, "Dataset3d": 3, "Dataset4d": 4,
             "Dataset4dstem": 4}[cls]
     shape = [r.pick([1, 2, 3, 4, 5, 6]) for _ in range(ndim)]
+    big = r.fork("big")
+    if ndim <= 3 and big.chance(0.06):      # axes beyond the usual small ones (size thresholds)
+        shape[big.randrange(ndim)] = big.pick([16, 17, 32, 33, 64, 100, 256])
     return {"op": "create", "cls": cls, "shape": shape,
-            "dtype": r.pick(["float64", "float32", "int32", "uint8", "int64", "complex64"]),
+            "dtype": r.pick(["float64", "float32", "int32", "uint8", "int64", "complex64"]) if r.chance(0.85)
+            else r.fork("dt").pick(["bool", "float16", "complex128", "uint16", "int8"]),
+            # memory layout of the array handed to from_array
+            "layout": r.fork("layout").pick(["C", "C", "C", "F", "strided", "readonly", "negstride"]),
             "fill": r.randrange(10 ** 6), "calib": r.chance(0.7), "int_calib": r.chance(0.2)}
 
 
@@ -172,9 +179,28 @@ def _mkarray(shape, dtype, fill):
         a = g.standard_normal(shape).astype(dt)
     elif dt.kind == "u":
         a = g.integers(0, 200, shape).astype(dt)
+    elif dt.kind == "b":
+        a = g.integers(0, 2, shape).astype(dt)
     else:
         a = g.integers(-50, 50, shape).astype(dt)
     return a
+
+
+def _layout(a, layout):
+    """Same values, another memory layout (what a caller may legitimately hand to from_array)."""
+    if layout == "F":
+        return np.asfortranarray(a)
+    if layout == "strided":      # every second element of a wider buffer along the last axis
+        w = np.zeros(a.shape[:-1] + (2 * a.shape[-1],), dtype=a.dtype)
+        w[..., ::2] = a
+        return w[..., ::2]
+    if layout == "negstride":
+        return np.ascontiguousarray(a[::-1])[::-1]
+    if layout == "readonly":
+        b = a.copy()
+        b.setflags(write=False)
+        return b
+    return a.copy()
 
 
 def snap(ds):
@@ -235,7 +261,7 @@ def _resolve_index(spec, shape):
     if la is not None and la < n:
         ln = shape[la]
         cand = list(items)
-        cand[la] = [x % ln for x in spec["list"]]
+        cand[la] = [(x % ln) - (ln if x % 7 == 0 else 0) for x in spec["list"]]   # some negative
         # advanced indices (ints + the list) must be adjacent, else numpy transposes
         adv = [q for q, it in enumerate(cand) if not isinstance(it, slice)]
         if adv == list(range(adv[0], adv[-1] + 1)):
@@ -279,7 +305,7 @@ def _renorm(it, ln):
         v = int(it) % ln
         return type(it)(v) if isinstance(it, np.integer) else v
     if isinstance(it, list):
-        return [x % ln for x in it]
+        return [(x % ln) - (ln if x < 0 else 0) for x in it]
     if isinstance(it, slice):
         if len(range(ln)[it]) == 0:
             return slice(None, None, it.step)
@@ -426,7 +452,12 @@ def run(plan):
                               "sampling": [round(g.uniform(0.1, 2), 2) for _ in range(nd)],
                               "units": [f"u{q}" for q in range(nd)], "name": "w", "signal_units": "e"}
                 try:
-                    ds = cls.from_array(arr.copy(), **kw)
+                    lay = op.get("layout", "C")
+                    if lay != "C":
+                        bump(probes, "layout_" + lay)
+                    if max(op["shape"]) >= 16:
+                        bump(probes, "axis_ge_16")
+                    ds = cls.from_array(_layout(arr, lay), **kw)
                 except Exception as e:
                     viol("op_raised", f"{op['cls']}.from_array(shape={op['shape']}) raised {e!r}",
                          f"op_raised:create:{op['cls']}")
